@@ -74,6 +74,15 @@ Theorem c19_size_overshoot_bound : forall max ic cnt,
 Proof. exact size_ok_bound. Qed.
 Print Assumptions c19_size_overshoot_bound.
 
+(* a record is never split: one slice handed to RotateLogger.Write (Spec.frontend_ok: the front-end hands over
+   exactly one per record, of any length) ends up whole at the tail of the current file, after at most one
+   rotation that happens before it is written *)
+Theorem c19_record_never_split : forall c s r now cur d,
+  s_fp s = true -> fs_get (c_file c) (s_fs s) = Some (cur, d) ->
+  exists pre d', fs_get (c_file c) (s_fs (write c s r now)) = Some (pre ++ [r], d') /\ (pre = cur \/ pre = []).
+Proof. exact write_record_whole. Qed.
+Print Assumptions c19_record_never_split.
+
 (* a compression that fails -- before or after F.gz was created -- leaves the plain backup in place
    (c19_no_loss_no_dup_in_order already quantifies over histories with EGzipFail steps) *)
 Theorem c19_failed_compression_keeps_backup : forall c F junk fs x,
